@@ -32,6 +32,84 @@ class Trace:
     pass
 
 
+class RawPeer:
+    """The harness itself as the peer of one real endpoint: writes reference-codec frames (or arbitrary bytes) onto the
+    link and decodes what the endpoint emits with the reference codec."""
+
+    def __init__(self, world, conn, side):
+        from harness import refcodec
+        self.rc = refcodec
+        self.world = world
+        self.side = side
+        self.conn = conn
+        self.out = conn.link[side]
+        self.inp = conn.link[OTHER[side]]
+        self.inp.sink = self
+        self.buf = bytearray()
+        self.frames = []  # decoded frames from the endpoint (refcodec dicts + seq)
+        self.undecodable = []
+        self.eof = False
+        self.error = False
+        self.next_sid = 1 if side == 'c' else 2
+        self.elem_idx = {}
+
+    # sink interface
+    def _decoded(self, body):
+        try:
+            w = self.rc.decode(body)
+        except self.rc.RefDecodeError as e:
+            self.undecodable.append(bytes(body))
+            self.world.ev(self.side, 'raw_recv_undecodable', n=len(body), err=str(e))
+            return
+        e = self.world.ev(self.side, 'raw_recv', w=w)
+        w = dict(w)
+        w['seq'] = e['seq']
+        self.frames.append(w)
+
+    def feed(self, chunk):
+        self.buf += chunk
+        bodies, rest = self.rc.split_stream(bytes(self.buf))
+        self.buf = bytearray(rest)
+        for b in bodies:
+            self._decoded(b)
+
+    async def feed_message(self, msg):
+        self._decoded(msg)
+
+    def feed_eof(self):
+        if not self.eof:
+            self.eof = True
+            self.world.ev(self.side, 'raw_eof')
+
+    def feed_error(self):
+        self.error = True
+        self.world.ev(self.side, 'raw_error')
+
+    # sending
+    def send_value(self, v):
+        body = self.rc.encode(v)
+        self.world.ev(self.side, 'raw_send', w=v)
+        self.send_body(body, log=False)
+
+    def send_body(self, body, log=True):
+        if log:
+            self.world.ev(self.side, 'raw_send_bytes', n=len(body), body=bytes(body[:64]))
+        if self.conn.message_mode:
+            self.out.write(bytes(body))
+        else:
+            self.out.write(self.rc.frame_with_length(bytes(body)))
+
+    def send_raw_bytes(self, data):
+        """byte mode only: bytes with no framing added"""
+        self.world.ev(self.side, 'raw_send_unframed', n=len(data))
+        self.out.write(bytes(data))
+
+    def alloc(self):
+        sid = self.next_sid
+        self.next_sid += 2
+        return sid
+
+
 class ManualLeasePublisher:
     """Lease publisher for the responder: publishes DefinedLease(count, ttl) when an operation says so."""
 
@@ -245,6 +323,8 @@ def _scn_methods():
         side = spec['side']
         sock = self.sock.get(side)
         if sock is None:
+            if getattr(self, 'raw', None) is not None and self.raw.side == side:
+                return self.raw_request(i)
             return False
         world = self.world
         st = {'spec': spec, 'uid': uid, 'pub': {}, 'libpub': {}, 'sub': {}, 'hfut': None, 'fut': None, 'sid': None}
@@ -313,6 +393,73 @@ def _scn_methods():
             d, m = A.pl(f.result())
             self.world.ev(side, 'rr_result', uid=uid, data=d, metadata=m)
 
+    def raw_request(self, i, opts=None):
+        """The raw peer opens interaction i (its spec's side must be the raw side)."""
+        opts = opts or {}
+        if i >= len(self.inter):
+            return False
+        spec = self.inter[i]
+        raw = self.raw
+        uid = i
+        side = raw.side
+        sid = opts.get('sid') or raw.alloc()
+        st = {'spec': dict(spec, side=side), 'uid': uid, 'pub': {}, 'libpub': {}, 'sub': {}, 'hfut': None, 'fut': None,
+              'sid': sid, 'raw': True}
+        self.st[uid] = st
+        self.started.append(uid)
+        self.world.bind(side, sid, uid)
+        d, m = A.payload_bytes(uid, A.TAG_REQ, 0, spec.get('req', [1, 0]))
+        k = spec['k']
+        self.world.ev(side, 'issue', uid=uid, k=k, data=d, metadata=m, sid=sid, raw=True)
+        t = {'rr': 'REQUEST_RESPONSE', 'fnf': 'REQUEST_FNF', 'st': 'REQUEST_STREAM', 'ch': 'REQUEST_CHANNEL'}[k]
+        v = {'type': t, 'sid': sid, 'data': d, 'metadata': m if m else None}
+        if k in ('st', 'ch'):
+            v['n'] = opts.get('n', spec.get('sub', {}).get('n0', MAXN))
+        if k == 'ch':
+            v['complete'] = bool(opts.get('complete', spec.get('rsrc') is None))
+        fsize = opts.get('frag')
+        if fsize:
+            for fv in ref_fragments(v, fsize):
+                raw.send_value(fv)
+        else:
+            raw.send_value(v)
+        return True
+
+    def raw_stream_frame(self, uid, kind, arg=None):
+        st = self.st[uid]
+        raw = self.raw
+        sid = st['sid']
+        if sid in (None, 0):
+            return False
+        raw_is_requester = st['spec']['side'] == raw.side
+        dirn = 'req' if raw_is_requester else 'resp'
+        tag = A.TAG_REQEL if raw_is_requester else A.TAG_RESP
+        if kind in ('next', 'next_complete'):
+            key = (uid, dirn)
+            idx = raw.elem_idx.get(key, 0)
+            raw.elem_idx[key] = idx + 1
+            lens = arg if isinstance(arg, (list, tuple)) else [5, 0]
+            d, m = A.payload_bytes(uid, tag, idx, lens)
+            complete = kind == 'next_complete'
+            self.world.ev(raw.side, 'hand', uid=uid, dir=dirn, idx=idx, data=d, metadata=m, complete=complete, raw=True)
+            raw.send_value({'type': 'PAYLOAD', 'sid': sid, 'next': True, 'complete': complete, 'data': d,
+                            'metadata': m if m else None})
+        elif kind == 'complete':
+            self.world.ev(raw.side, 'hand_end', uid=uid, dir=dirn, how='complete', raw=True)
+            raw.send_value({'type': 'PAYLOAD', 'sid': sid, 'next': False, 'complete': True, 'data': b'', 'metadata': None})
+        elif kind == 'error':
+            self.world.ev(raw.side, 'hand_end', uid=uid, dir=dirn, how='error', raw=True)
+            raw.send_value({'type': 'ERROR', 'sid': sid, 'code': 0x201, 'data': b'raw peer error'})
+        elif kind == 'request_n':
+            self.world.ev(raw.side, 'raw_request_n', uid=uid, n=arg or 1)
+            raw.send_value({'type': 'REQUEST_N', 'sid': sid, 'n': arg or 1})
+        elif kind == 'cancel':
+            self.world.ev(raw.side, 'raw_cancel', uid=uid)
+            raw.send_value({'type': 'CANCEL', 'sid': sid})
+        return True
+
+    Scenario.raw_request = raw_request
+    Scenario.raw_stream_frame = raw_stream_frame
     Scenario.make_source = make_source
     Scenario.make_subscriber = make_subscriber
     Scenario.resolve = resolve
@@ -329,6 +476,41 @@ def _ensure():
         _scn_methods()
         patch_datetime()
         _methods_ready = True
+
+
+def ref_fragments(v, size, length_prefixed=True):
+    """Reference fragmenter (from the protocol text): metadata first, then data, every fragment <= size on the wire."""
+    hdr = 10 if v['type'] in ('REQUEST_STREAM', 'REQUEST_CHANNEL') else 6
+    md = v.get('metadata') or b''
+    data = v.get('data') or b''
+    out = []
+    first = True
+    pos_m = pos_d = 0
+    while True:
+        budget = size - (hdr if first else 6) - (3 if length_prefixed else 0)
+        fm = b''
+        fd = b''
+        if pos_m < len(md):
+            take = max(1, min(len(md) - pos_m, budget - 3))
+            fm = md[pos_m:pos_m + take]
+            pos_m += take
+            budget -= 3 + take
+        if pos_m >= len(md) and pos_d < len(data) and budget > 0:
+            fd = data[pos_d:pos_d + budget]
+            pos_d += len(fd)
+        last = pos_m >= len(md) and pos_d >= len(data)
+        f = {'type': v['type'] if first else 'PAYLOAD', 'sid': v['sid'], 'follows': not last,
+             'metadata': fm if fm else None, 'data': fd}
+        if first and 'n' in v:
+            f['n'] = v['n']
+        if not first:
+            f['next'] = True
+        if last and v.get('complete'):
+            f['complete'] = True
+        out.append(f)
+        first = False
+        if last:
+            return out
 
 
 def side_of(st, dirn, role):
@@ -361,22 +543,45 @@ async def _execute(loop, program, observe=None):
         skw['lease_publisher'] = lease_pub
         ckw['honor_lease'] = True
         ckw['request_queue_size'] = lease.get('queue', 0)
-    server = RSocketServer(conn.transport['s'], handler_factory=make_handler_class(scn, 's'),
-                           fragment_size_bytes=frag[1], **common, **skw)
-    client = RSocketClient(single_transport_provider(conn.transport['c']),
-                           handler_factory=make_handler_class(scn, 'c'),
-                           fragment_size_bytes=frag[0], **common, **ckw)
-    scn.sock = {'c': client, 's': server}
-    cs = cfg.get('connect')
-    if cs:
-        conn.transport['c'].connect_script = tuple(cs)
-    await client.connect()
+    raw_side = cfg.get('raw')
+    raw = RawPeer(world, conn, raw_side) if raw_side else None
+    scn.raw = raw
+    scn.sock = {}
+    ckw.update(cfg.get('client_kwargs', {}))
+    skw.update(cfg.get('server_kwargs', {}))
+    if cfg.get('setup_payload') is not None:
+        d, m = cfg['setup_payload']
+        ckw['setup_payload'] = A.mk_payload(d, m)
+    for key in ('data_encoding', 'metadata_encoding'):
+        if cfg.get(key) is not None:
+            ckw[key] = cfg[key]
+    if raw_side != 's':
+        if cfg.get('lease') and cfg['lease'].get('server_without_publisher'):
+            skw.pop('lease_publisher', None)
+        scn.sock['s'] = RSocketServer(conn.transport['s'], handler_factory=make_handler_class(scn, 's'),
+                                      fragment_size_bytes=frag[1], **common, **skw)
+    if raw_side != 'c':
+        client = RSocketClient(single_transport_provider(conn.transport['c']),
+                               handler_factory=make_handler_class(scn, 'c'),
+                               fragment_size_bytes=frag[0], **common, **ckw)
+        scn.sock['c'] = client
+        cs = cfg.get('connect')
+        if cs:
+            conn.transport['c'].connect_script = tuple(cs)
+        await client.connect()
+    elif cfg.get('raw_setup', True):
+        raw.send_value({'type': 'SETUP', 'sid': 0, 'keepalive': 100000000, 'lifetime': 1000000000,
+                        'metadata_mime': b'application/json', 'data_mime': b'application/json', 'metadata': None,
+                        'data': b'', 'lease': bool(cfg.get('raw_setup_lease'))})
     idmask = cfg.get('idmask')
     if idmask:
-        for s in (client, server):
+        for s in scn.sock.values():
             s._stream_control._maximum_stream_id = idmask
     regime = {'mode': cfg.get('regime', 'pumped')}
     state = {'faulted': False, 'nsteps': 0}
+    if cfg.get('cutat'):
+        ca = cfg['cutat']
+        conn.arm_cut(ca['link'], ca['after'], ca.get('mode', 'eof'))
 
     async def tick(k=1):
         for _ in range(k):
@@ -410,17 +615,26 @@ async def _execute(loop, program, observe=None):
                 l.deliver_bytes(op[2] if len(op) > 2 else None)
         elif name == 'regime':
             regime['mode'] = op[1]
+        elif name == 'settle':
+            await simnet.run_until_quiet(loop, [conn])
+        elif name == 'mark':
+            world.ev('net', 'mark', name=op[1])
         elif name == 'block':
             conn.block(op[1])
         elif name == 'unblock':
             conn.unblock(op[1])
-        elif name in ('emit', 'end', 'req', 'cancel', 'resolve'):
+        elif name in ('emit', 'end', 'req', 'cancel', 'resolve', 'fail', 'failfut'):
             uid = started_uid(op[1])
             if uid is None:
                 continue
             st = scn.st[uid]
             if name == 'resolve':
                 scn.resolve(uid)
+            elif name == 'failfut':
+                fut = st.get('hfut')
+                if fut is not None and not fut.done():
+                    world.ev(OTHER[st['spec']['side']], 'hfut_fail', uid=uid)
+                    fut.set_exception(A.AppError('response %d failed' % uid))
             elif name == 'cancel' and st['spec']['k'] == 'rr':
                 fut = st.get('fut')
                 if fut is not None and not fut.done():
@@ -436,6 +650,10 @@ async def _execute(loop, program, observe=None):
                     p = st['pub'].get(dirn)
                     if p is not None:
                         p.end()
+                elif name == 'fail':
+                    p = st['pub'].get(dirn)
+                    if p is not None:
+                        p.fail()
                 elif name == 'req':
                     s = st['sub'].get(dirn)
                     if s is not None:
@@ -447,6 +665,24 @@ async def _execute(loop, program, observe=None):
         elif name == 'lease':
             if lease_pub is not None:
                 lease_pub.publish(op[1], op[2])
+        elif name == 'rawframe':
+            if raw is not None:
+                raw.send_value(op[1])
+        elif name == 'rawbody':
+            if raw is not None:
+                raw.send_body(op[1])
+        elif name == 'rawbytes':
+            if raw is not None and not conn.message_mode:
+                raw.send_raw_bytes(op[1])
+        elif name == 'rawreq':
+            if raw is not None:
+                scn.raw_request(next_start[0], op[1] if len(op) > 1 else None)
+                next_start[0] += 1
+        elif name == 'rawf':
+            if raw is not None:
+                uid = started_uid(op[1])
+                if uid is not None:
+                    scn.raw_stream_frame(uid, op[2], op[3] if len(op) > 3 else None)
         elif name == 'cut':
             state['faulted'] = True
             world.ev('net', 'cut', mode=op[1])
@@ -464,6 +700,8 @@ async def _execute(loop, program, observe=None):
         regime['mode'] = 'pumped'
         conn.unblock('c')
         conn.unblock('s')
+        if raw is not None and not program.get('heal_raw', False):
+            pass
         quiet = False
         stale = 0
         if lease_pub is not None and program.get('heal_lease', True):
@@ -511,7 +749,7 @@ async def _execute(loop, program, observe=None):
     tr.scn = scn
     tr.conn = conn
     tr.quiet = quiet
-    tr.faulted = state['faulted']
+    tr.faulted = state['faulted'] or any(e['ev'] == 'cut' for e in world.log if e['side'] == 'net')
     tr.loop_errors = list(loop.errors)
     tr.final = {}
     for side, sock in scn.sock.items():
@@ -525,6 +763,7 @@ async def _execute(loop, program, observe=None):
             'sendq': sock._send_queue.qsize(),
             'sender_done': sock._sender_task is None or sock._sender_task.done(),
             'receiver_done': sock._receiver_task is None or sock._receiver_task.done(),
+            'keepalive_done': getattr(sock, '_keepalive_task', None) is None or sock._keepalive_task.done(),
         }
     if observe is not None:
         await observe(tr)
